@@ -9,6 +9,9 @@ def factory(prop):
     if prop in ("C09", "C10"):
         from engines.permits import PermitCheck
         return PermitCheck(prop)
+    if prop in ("C01", "C02", "C03", "C04", "C05", "C07"):
+        from engines.sc import SCCheck
+        return SCCheck(prop)
     raise SystemExit(f"unknown property {prop}")
 
 
